@@ -179,6 +179,50 @@ func checkAPI(t apiTable) error {
 
 type callCase struct {
 	Call recipe.Call `json:"call"`
+	// Before: what the group already holds when the *Group method is called ("" = Id("before")): an if
+	// statement, a case clause, a for header, a comment, ... — the method appends a statement of its own
+	// whatever came before
+	Before string `json:"before,omitempty"`
+}
+
+// each entry builds the same statement twice: through the *Group methods (as a user filling a group would)
+// and through the package functions (for the reference)
+var befores = map[string][2]func(g *jen.Group) *jen.Statement{
+	"if":      {func(g *jen.Group) *jen.Statement { return g.If(jen.Id("a")).Block(jen.Id("x").Call()) }, func(*jen.Group) *jen.Statement { return jen.If(jen.Id("a")).Block(jen.Id("x").Call()) }},
+	"ifelse":  {func(g *jen.Group) *jen.Statement { return g.If(jen.Id("a")).Block().Else().Block() }, func(*jen.Group) *jen.Statement { return jen.If(jen.Id("a")).Block().Else().Block() }},
+	"case":    {func(g *jen.Group) *jen.Statement { return g.Case(jen.Lit(1)) }, func(*jen.Group) *jen.Statement { return jen.Case(jen.Lit(1)) }},
+	"default": {func(g *jen.Group) *jen.Statement { return g.Default() }, func(*jen.Group) *jen.Statement { return jen.Default() }},
+	"for":     {func(g *jen.Group) *jen.Statement { return g.For() }, func(*jen.Group) *jen.Statement { return jen.For() }},
+	"func":    {func(g *jen.Group) *jen.Statement { return g.Func().Id("f").Params() }, func(*jen.Group) *jen.Statement { return jen.Func().Id("f").Params() }},
+	"comment": {func(g *jen.Group) *jen.Statement { return g.Comment("c") }, func(*jen.Group) *jen.Statement { return jen.Comment("c") }},
+	"line":    {func(g *jen.Group) *jen.Statement { return g.Line() }, func(*jen.Group) *jen.Statement { return jen.Line() }},
+	"return":  {func(g *jen.Group) *jen.Statement { return g.Return() }, func(*jen.Group) *jen.Statement { return jen.Return() }},
+	"var":     {func(g *jen.Group) *jen.Statement { return g.Var().Id("v") }, func(*jen.Group) *jen.Statement { return jen.Var().Id("v") }},
+	"switch":  {func(g *jen.Group) *jen.Statement { return g.Switch(jen.Id("v")) }, func(*jen.Group) *jen.Statement { return jen.Switch(jen.Id("v")) }},
+	"null":    {func(g *jen.Group) *jen.Statement { return g.Null() }, func(*jen.Group) *jen.Statement { return jen.Null() }},
+}
+
+func beforeNames() []string {
+	var out []string
+	for k := range befores {
+		out = append(out, k)
+	}
+	sort.Strings(out)
+	return out
+}
+
+// before: into g through its methods (g != nil), or as a free statement for the reference (g == nil).
+func (cc callCase) before(g *jen.Group) *jen.Statement {
+	if f, ok := befores[cc.Before]; ok {
+		if g != nil {
+			return f[0](g)
+		}
+		return f[1](nil)
+	}
+	if g != nil {
+		return g.Id("before")
+	}
+	return jen.Id("before")
 }
 
 func renderCode(c jen.Code) (string, error) {
@@ -392,12 +436,12 @@ func checkCall(cc callCase) error {
 	var outer, want, wantRet jen.Code
 	if perr := hx.Safe(func() error {
 		outer = jen.CustomFunc(jen.Options{Open: "<", Close: ">", Separator: ";"}, func(g *jen.Group) {
-			g.Id("before")
+			cc.before(g)
 			ret = b7.CallGroup(g, fn, c)
 			g.Id("after")
 		})
 		wantRet = b8.CallFunc(fn, c)
-		want = jen.Custom(jen.Options{Open: "<", Close: ">", Separator: ";"}, jen.Id("before"), wantRet, jen.Id("after"))
+		want = jen.Custom(jen.Options{Open: "<", Close: ">", Separator: ";"}, cc.before(nil), wantRet, jen.Id("after"))
 		return nil
 	}); perr != nil {
 		return fmt.Errorf("%s group form: %v", fn, perr)
@@ -638,6 +682,9 @@ func TestC14(t *testing.T) {
 		ck := hx.Check[callCase]{Name: "forms_" + sig.Name, Fn: checkCall}
 		hx.Rapid(r, t, ck, per, func(rt *rapid.T) callCase {
 			c := callCase{Call: gen.CallFor(rt, sig, 2, 4)}
+			if rapid.Bool().Draw(rt, "hasbefore") {
+				c.Before = rapid.SampledFrom(beforeNames()).Draw(rt, "before")
+			}
 			r.NonTrivial(recipe.JSON(c))
 			r.Class("construct:" + sig.Name)
 			return c
